@@ -159,6 +159,14 @@ pub fn start_progress_watchdog(prop: &'static str, seed: u64, engine: Engine, sh
         let cpu = |t: &str| -> Option<u64> { std::fs::read_to_string(format!("/proc/{}/schedstat", t)).ok()?.split_whitespace().next()?.parse().ok() };
         let mut seen: Option<(u64, u64)> = None; // (case, cpu at first sight)
         let mut eof_seen: u64 = 0; // FIBEX end-of-file events delivered when the case was first seen
+        // a call that *sleeps* (retry loops with back-off, waiting for something that never comes) burns no CPU:
+        // it shows as scheduler state S (voluntarily blocked) with a CPU clock that stands still. A thread that is
+        // merely starved by a loaded machine is in state R, one waiting for the disk in state D - neither counts.
+        let state = |t: &str| -> Option<char> {
+            let s = std::fs::read_to_string(format!("/proc/{}/stat", t)).ok()?;
+            s[s.rfind(')')? + 1..].trim_start().chars().next()
+        };
+        let mut blocked: Option<(std::time::Instant, u64, u64)> = None; // (case first seen, samples asleep, samples)
         loop {
             std::thread::sleep(std::time::Duration::from_millis(200));
             let case = CURRENT_CASE.load(SeqCst);
@@ -176,9 +184,42 @@ pub fn start_progress_watchdog(prop: &'static str, seed: u64, engine: Engine, sh
                 _ => {
                     seen = Some((case, now));
                     eof_seen = eof_now;
+                    blocked = None;
                 }
             }
             let used = (now - seen.unwrap().1) as f64 / 1e9;
+            {
+                if let Some((since, asleep, total)) = blocked.as_mut() {
+                    *total += 1;
+                    if state(&task) == Some('S') {
+                        *asleep += 1;
+                    }
+                    let el = since.elapsed().as_secs_f64();
+                    if el > BLOCKED_BOUND_S && *asleep * 2 > *total {
+                        let j = J::obj()
+                            .set("prop", prop)
+                            .set("seed", seed)
+                            .set("index", case)
+                            .set("sub", CURRENT_SUBSTEP.load(SeqCst))
+                            .set("reason", "case_asleep_instead_of_returning")
+                            .set("elapsed_s", format!("{:.0}", el))
+                            .set("samples_asleep", *asleep)
+                            .set("samples", *total)
+                            .set("thread_cpu_s", format!("{:.1}", used))
+                            .set("bound_s", format!("{:.0}", BLOCKED_BOUND_S))
+                            .set("what", "during one case the worker's main thread was asleep (scheduler state S) at most samples for longer than the bound: a call into the crate waits or retries with back-off instead of returning");
+                        match &out_dir {
+                            Some(d) => {
+                                let _ = std::fs::write(format!("{}/hang-{}-{}.json", d, engine.name(), shard), j.to_string());
+                            }
+                            None => println!("  violated clause=bounded_progress discr=case_asleep_instead_of_returning detail={}", j.to_string()),
+                        }
+                        std::process::exit(17);
+                    }
+                } else {
+                    blocked = Some((std::time::Instant::now(), 0u64, 0u64));
+                }
+            }
             // a logical measure next to the CPU time: a loader that sleeps between retries burns no CPU,
             // but it is handed end-of-file again and again (hook counter in the crate, feature verif-hooks)
             let eof_exceeded = eof_bound.map_or(false, |b| eof_now - eof_seen > b);
@@ -223,6 +264,8 @@ pub fn start_progress_watchdog(prop: &'static str, seed: u64, engine: Engine, sh
     });
 }
 
+/// seconds a case may leave the main thread asleep without using CPU (see the progress watchdog)
+pub const BLOCKED_BOUND_S: f64 = 90.0;
 pub const MAX_SIGNATURES: usize = 60;
 pub const MAX_SHAPES: usize = 6_000_000;
 pub const MAX_SAMPLES: usize = 4;
@@ -416,6 +459,12 @@ impl Ctx {
 
     /// a panic inside a crate call: violation unless it originates in the harness itself
     pub fn panic_violation(&mut self, clause: &str, p: &Panic, detail: impl FnOnce() -> J) {
+        if p.msg.starts_with(crate::iosched::EOF_IGNORED_MARK) {
+            // raised by the scripted source, not by the crate: the reader kept reading after end-of-stream
+            let msg = p.msg.clone();
+            self.violation("bounded_progress.end_of_stream_ignored", clause, || detail().set("what", crate::json::trunc(&msg, 300)));
+            return;
+        }
         if p.in_harness() {
             self.harness_error(format!("harness panic at {}: {}", p.loc, p.msg));
             return;
